@@ -424,6 +424,16 @@ fn replay_case(case: &Value, s: &mut Sink) {
     }
     if case["check"] == "D1" {
         let xs: Vec<f64> = serde_json::from_value(case["xs"].clone()).unwrap();
+        // a sample of the level chains: the failure may depend on
+        // the calls before it, so the whole chain of that sample is replayed
+        if CHAIN_SAMPLES.iter().any(|c| *c == xs.as_slice()) {
+            if f32_ {
+                judge_sample::<f32>(&xs, &chain_confs(), &[Style::Ci], s)
+            } else {
+                judge_sample::<f64>(&xs, &chain_confs(), &[Style::Ci], s)
+            }
+            return;
+        }
         if f32_ {
             judge_sample::<f32>(&xs, &[(kind, level)], &STYLES_ALL, s)
         } else {
